@@ -61,13 +61,19 @@ TRerun == /\ Ev.op = "rerun"
              \/ Ev.ok /\ ~Ev.same /\ Bad("rerun-different-result")
           /\ UNCHANGED <<meta, p, refs, strict>>
 
+\* a store write that fails must make the operation report an error
+TFault == /\ Ev.op = "fault"
+          /\ \/ Ev.reported
+             \/ ~Ev.reported /\ Bad("failure-not-reported")
+          /\ UNCHANGED <<meta, p, refs, strict>>
+
 TEnd == Ev.op = "end" /\ UNCHANGED <<meta, p, refs, strict>>
 
 Empty == [blocks |-> {}, blkidx |-> {}, tables |-> {}, tblidx |-> {}, profiles |-> {}, commits |-> {}]
 Init == l = 1 /\ meta = [tables |-> <<>>, commits |-> <<>>] /\ p = Empty /\ refs = <<>> /\ strict = {}
 Next == /\ l <= Len(TLog)
         /\ l' = l + 1
-        /\ (TBegin \/ TWrite \/ TRef \/ TRerun \/ TEnd)
+        /\ (TBegin \/ TWrite \/ TRef \/ TRerun \/ TFault \/ TEnd)
 Spec == Init /\ [][Next]_vars
 Constr == Mark(l)
 =============================================================================
